@@ -2,11 +2,12 @@
 # offline build of the harness (both profiles); the fuzz target is built best-effort
 set -u
 export CARGO_NET_OFFLINE=true
-cd /verif/harness || exit 1
-mkdir -p /verif/evidence /verif/replays
+VERIF=$(cd "$(dirname "$0")" && pwd)
+cd $VERIF/harness || exit 1
+mkdir -p $VERIF/evidence $VERIF/replays
 cargo build --quiet --profile checked --features hooks || cargo build --quiet --profile checked || exit 1
 cargo build --quiet --profile release --features hooks || cargo build --quiet --profile release || exit 1
-if [ -d /verif/harness/fuzz ]; then
-  ( cd /verif/harness && cargo +nightly fuzz build -s none tape >/dev/null 2>&1 ) || echo "note: fuzz target not built (thorough tier will report fuzz unavailable)"
+if [ -d $VERIF/harness/fuzz ]; then
+  ( cd $VERIF/harness && cargo +nightly fuzz build -s none tape >/dev/null 2>&1 ) || echo "note: fuzz target not built (thorough tier will report fuzz unavailable)"
 fi
 echo setup ok
